@@ -5,7 +5,7 @@
    Part 1: contents, grouping of the flat history, the order. *)
 From Coq Require Import List ZArith NArith PArith Bool Arith Lia Sorted Permutation FMapPositive.
 From RS Require Import Base.Lex Order.MsgOrderDefs Order.MsgOrderProofs Heap.HeapList TW.App TW.Seq TW.Worker TW.WorkerProofs TW.WorkerSafety
-  TW.WorkerOnce TW.WorkerOnceProofs TW.WorkerOnceApp TW.AppAbs.
+  TW.WorkerOnce TW.WorkerOnceProofs TW.WorkerOnceApp TW.AppAbs TW.AppAbs2.
 From RS.Abs Require Peel Abs Bridge.
 Import ListNotations.
 
@@ -1887,5 +1887,26 @@ Proof.
   intros w Hq tr Hrun l Hl.
   destruct (worker_below_bound_is_sequential ops (fun _ => true) (fun _ _ _ _ => eq_refl) ltac:(fold w; rewrite Hq; intros y []) tr Hrun l Hl) as (rel & Hrel & E).
   fold w in Hrel, E. exists rel. split; [exact Hrel|]. rewrite E. f_equal. clear. induction (rel ++ retained w l) as [|y r IH]; [reflexivity|]. cbn [filter]. rewrite IH. reflexivity.
+Qed.
+
+(* C03 at process.c level: for every bound g at or below the worker's GVT, what fossil collection has released followed by the retained
+   entries below g is exactly the LP's part of the sequential execution below g; at g = GVT nothing released is filtered away *)
+Theorem worker_committed_is_sequential (ops : list wop) (g : N) :
+  let w := fold_left (wstep p ck) ops (w_init p) in
+  (Z.of_N g <= k_gvt w)%Z ->
+  forall tr, Peel.seqrun cont (Abs.clt cont cltb) lpstate (Bridge.handle_g cont lpstate (ahandle p) (below_ts g)) (AppAbs.s0 p) (Bridge.Pg cont init0 (below_ts g)) tr ->
+  forall l, l < n -> exists released, (forall y, In y released -> (Z.of_N (tm y) < k_gvt w)%Z) /\
+    Peel.proj cont l tr = map evc (filter (fun y => below_ts g (evc y)) (released ++ retained w l)) /\
+    (Z.of_N g = k_gvt w -> Peel.proj cont l tr = map evc released ++ map evc (filter (fun y => below_ts g (evc y)) (retained w l))).
+Proof.
+  intros w Hg tr Hrun l Hl.
+  destruct (worker_refines_abstract ops) as (a & Hr). fold w in Hr.
+  assert (Hpend : forall y, In y (pend w) -> below_ts g (evc y) = false).
+  { intros y Hy. pose proof (s_pend w (f_good p w (r_full _ _ Hr)) y Hy) as Hge. unfold ge in Hge. unfold below_ts, evc, cont_of, c_t. cbn [fst]. apply N.ltb_ge. unfold tm in Hge. lia. }
+  destruct (worker_below_bound_is_sequential ops (below_ts g) (below_ts_down g) Hpend tr Hrun l Hl) as (rel & Hrel & E). fold w in Hrel, E.
+  exists rel. split; [exact Hrel|]. split; [exact E|]. intros Eg. rewrite E, filter_app, map_app. f_equal. f_equal.
+  assert (Hall : forall y, In y rel -> below_ts g (evc y) = true).
+  { intros y Hy. specialize (Hrel y Hy). unfold below_ts, evc, cont_of, c_t. cbn [fst]. apply N.ltb_lt. unfold tm in Hrel. lia. }
+  clear -Hall. induction rel as [|y r IH]; [reflexivity|]. cbn [filter]. rewrite (Hall y (or_introl eq_refl)). f_equal. apply IH. intros z Hz. apply Hall. right. exact Hz.
 Qed.
 End Sim.
